@@ -1,7 +1,7 @@
 #!/usr/bin/env python3
 """(author only) package the seeded changes written by sub-agents into /verif/seeded/<id>/.
 
-Inputs: /tmp/seeded/<Cxx>/<i>/{patch.diff, *_test.go, README.md, confirm.log}, /tmp/onrepo.log
+Inputs: /tmp/seeded/<Cxx>/<i>/ (round 1: i = 1, 2) and /tmp/seeded2/<Cxx>/<i-2>/ (round 2: i = 3, 4) {patch.diff, *_test.go, README.md, confirm.log}, /tmp/onrepo.log
 (results of tools/test_seeded_on_repo.sh) and tools/seeded_table.py."""
 import glob, json, os, re, shutil
 
@@ -21,7 +21,7 @@ if os.path.exists('/tmp/onrepo.log'):
 rows = []
 for key, v in sorted(SEEDED.items()):
     prop, i = key.split('-')
-    src = f'/tmp/seeded/{prop}/{i}'
+    src = f'/tmp/seeded/{prop}/{i}' if int(i) <= 2 else f'/tmp/seeded2/{prop}/{int(i) - 2}'
     dst = f'/verif/seeded/{key}'
     os.makedirs(dst, exist_ok=True)
     shutil.copy(f'{src}/patch.diff', f'{dst}/patch.diff')
